@@ -615,13 +615,15 @@ func resolution(r *sim.Rand) {
 func wildFrame(r *sim.Rand, up bool) {
 	ds := spec.DescsDir(up)
 	n := 2 + r.Intn(3)
-	var cmds []spec.Cmd
-	wildAt := r.Intn(n)
 	budget := 15
 	port0 := r.Intn(2) == 0
 	if port0 {
-		budget = 60
+		// port 0 takes long sequences
+		n = 2 + r.Intn(11)
+		budget = 200
 	}
+	var cmds []spec.Cmd
+	wildAt := r.Intn(n)
 	for i := 0; i < n; i++ {
 		d := ds[r.Intn(len(ds))]
 		if 1+d.Size > budget {
